@@ -18,11 +18,12 @@ def _real_tree(ex):
     from reuse.project import Project
 
     own, sib, lv = ex["own"], ex["sibling"], ex["levels"]
+    dirs = [d.rstrip("/") for d in ex.get("dirs", ["", "a/", "a/b/"])]
     if own in ("binary",):
         return None
     d = tempfile.mkdtemp(prefix="vf-c04-", dir=os.environ.get("VF_TMP", None))
     try:
-        os.makedirs(os.path.join(d, "a", "b"))
+        os.makedirs(os.path.join(d, dirs[2]))
         lic = {0: "MIT", 1: "Apache-2.0", 2: "ISC"}
         for i, s in enumerate(lv):
             if s is None:
@@ -33,7 +34,7 @@ def _real_tree(ex):
                 lines.append(f'SPDX-FileCopyrightText = "2020 Holder-L{i}"')
             if "l" in info:
                 lines.append(f'SPDX-License-Identifier = "{lic[i]}"')
-            with open(os.path.join(d, ["", "a", "a/b"][i], "REUSE.toml"), "w") as fp:
+            with open(os.path.join(d, dirs[i], "REUSE.toml"), "w") as fp:
                 fp.write("\n".join(lines) + "\n")
 
         def body(kind, who, l):
@@ -47,7 +48,7 @@ def _real_tree(ex):
                 out.append("# SPDX-FileCopyrightText: 2021 own")
             return "\n".join(out + ["x = 1"]) + "\n"
 
-        f = os.path.join(d, "a", "b", "f.py")
+        f = os.path.join(d, dirs[2], "f.py")
         with open(f, "w") as fp:
             fp.write(body(own, "own", "0BSD"))
         if sib != "absent":
@@ -91,6 +92,12 @@ def run(ctx):
             for m2 in (0, 1):
                 conds.append(xh.Cond(f"two-tables match1={m1} match2={m2}", "C04.py", "_last", {"m1": m1, "m2": m2, "own_n": 4}, timeout=900, twin="_last_reach"))
     conds.append(xh.Cond("dep5 aggregate", "C04.py", "_dep5", {}, timeout=300, twin="_dep5_reach"))
+    # nested directories whose names sort before / after 'REUSE.toml' in every plausible sort key
+    for dirs in (["", "Docs/", "Docs/3rd/"], ["", "+x/", "+x/(y)/"]):
+        for l0 in (1, 5, 9) if tier == "quick" else range(13):
+            conds.append(xh.Cond(f"depth2 root={SHAPES[l0]} with nested directories {dirs[1:]}", "C04.py", "_ob", {"depth": 2, "levels": [l0, None, None], "dirs": dirs, "carve": carve}, timeout=300, twin="_ob_reach"))
+    for m1, m2 in ((1, 1), (1, 0)):
+        conds.append(xh.Cond(f"two tables, the first names the file literally, match2={m2} (last match wins also across literal and glob tables)", "C04.py", "_last", {"m1": m1, "m2": m2, "own_n": 2, "literal_first": True}, timeout=300, twin="_last_reach"))
     for l0 in range(13):
         conds.append(xh.Cond(f"two look-ups on one Project carry no state (root shape {SHAPES[l0]})", "C04.py", "_twice", {"levels": [l0, None, None], "carve": carve}, timeout=300, twin="_twice_reach"))
     ctx.functions_encoded = [
@@ -118,7 +125,7 @@ def run(ctx):
 
     def confirm(c, ex):
         if c.func == "_ob":
-            w = {"own": ex["own"], "sibling": ex["sibling"], "levels": ex["levels"], "expected": ex["expected"]}
+            w = {"own": ex["own"], "sibling": ex["sibling"], "levels": ex["levels"], "expected": ex["expected"], "dirs": ex.get("dirs", ["", "a/", "a/b/"])}
             if ex["got"] == ex["expected"] and ex["file_read"] != ex["file_must_be_read"]:
                 return (f"file-read:{ex['own']}:{ex['sibling']}:{ex['levels']}", f"file read={ex['file_read']} but must be {ex['file_must_be_read']} for {ex}", w)
             if not replay(w):
